@@ -30,13 +30,12 @@ def run(ck, ctx):
     st = CG.st
     func = "compute"
     inits = CG.calls("init")
-    if len(inits) != 1:
-        raise AnalysisError(f"results table initialised {len(inits)} times")
-    table = inits[0][3]
+    if not inits:
+        raise AnalysisError("no results table is initialised below compute()")
     ws = CG.inputs["write_stages"]
     outf = CG.inputs["output_file"]
 
-    def touches_table(e):
+    def touches(e, table):
         for r in e.data.get("roots", []) or []:
             if r is table:
                 return True
@@ -46,6 +45,13 @@ def run(ck, ctx):
         if e.node is not None and e.kind == "write" and any(r is table for r in I.roots(e.node)):
             return True
         return False
+    # the results table of the run is the initialised table the stages store into (a second, throw-away table - say
+    # an empty one handed back by an early exit - is not the subject of this property)
+    table = max((c[3] for c in inits), key=lambda t: sum(1 for e in CG.effects if e.kind == "mcall-mutate" and
+                                                         touches(e, t)))
+
+    def touches_table(e):
+        return touches(e, table)
 
     muts = [e for e in CG.effects if e.kind in ("mcall-mutate",) and touches_table(e)] + \
            [e for e in CG.effects if e.kind == "write" and e.data.get("how", "").startswith(("subscript", "aug"))
